@@ -25,11 +25,453 @@ def RefusalReason {α} (c : Chunk α) : Op → Prop
   | .metarize w => idsOf c w = none ∨ (w = .groups ∧ c.layers.isSome = true)
   | .metarMsg w => tableOf c w = none
 
+namespace SC
+
+section helpers
+variable {α : Type} [DecidableEq α]
+
+theorem metarize_slices_flag (K : MetK) (P : Prms α) (b b' : Bool) (data : List (Hit α)) (ids : List Int) :
+    metarize K P .slices b data ids = metarize K P .slices b' data ids := by
+  unfold metarize; simp
+
+theorem metarize_layers_flag (K : MetK) (P : Prms α) (b b' : Bool) (data : List (Hit α)) (ids : List Int) :
+    metarize K P .layers b data ids = metarize K P .layers b' data ids := by
+  unfold metarize; simp
+
+theorem metarize_groups_nil (K : MetK) (P : Prms α) (b b' : Bool) (data : List (Hit α)) (ids : List Int)
+    (h : clusterIds ids = []) :
+    metarize K P .groups b data ids = metarize K P .groups b' data ids := by
+  unfold metarize; simp [h]
+
+theorem find_cid (o : Table) (hnd : (o.map (·.cid)).Nodup) :
+    ∀ (i : Nat) (h : i < o.length), o.find? (fun p => decide (p.cid = o[i].cid)) = some o[i] := by
+  induction o with
+  | nil => intro i h; simp at h
+  | cons a t ih =>
+    intro i h
+    rw [List.map_cons, List.nodup_cons] at hnd
+    cases i with
+    | zero => simp
+    | succ j =>
+      have hj : j < t.length := by simpa using h
+      have hne : ¬ a.cid = t[j].cid := by
+        intro he
+        exact hnd.1 (he ▸ List.mem_map_of_mem (List.getElem_mem hj))
+      rw [List.find?_cons]
+      simp only [List.getElem_cons_succ, hne, decide_false]
+      exact ih hnd.2 j hj
+
+theorem carry_eq (o t : Table) (hlen : o.length = t.length)
+    (hcid : ∀ i (h1 : i < o.length) (h2 : i < t.length), t[i].cid = o[i].cid)
+    (hnd : (o.map (·.cid)).Nodup)
+    (hrow : ∀ i (h1 : i < o.length) (h2 : i < t.length), { t[i] with isolated := o[i].isolated } = o[i]) :
+    carryIsolated (some o) t = o := by
+  apply List.ext_getElem
+  · simp [carryIsolated, hlen]
+  · intro i h1 h2
+    have h3 : i < t.length := hlen ▸ h2
+    have hf := find_cid o hnd i h2
+    rw [← hcid i h2 h3] at hf
+    simp only [carryIsolated, List.getElem_map, hf]
+    exact hrow i h2 h3
+
+theorem carry_self (t : Table) (hnd : (t.map (·.cid)).Nodup) : carryIsolated (some t) t = t :=
+  carry_eq t t rfl (fun _ _ _ => rfl) hnd (fun _ _ _ => rfl)
+
+theorem setIsolated_length (t : Table) (iso : List Bool) : (setIsolated t iso).length = t.length := by
+  rw [setIsolated_eq, List.length_mapIdx]
+
+theorem setNcomp_length (t : Table) (nc : List Int) : (setNcomp t nc).length = t.length := by
+  rw [setNcomp_eq, List.length_mapIdx]
+
+theorem setIsolated_getElem (t : Table) (iso : List Bool) (i : Nat) (h : i < (setIsolated t iso).length)
+    (h' : i < t.length) :
+    (setIsolated t iso)[i] = { t[i] with isolated := some (iso.getD i true) } := by
+  simp only [setIsolated_eq, List.getElem_mapIdx]
+
+theorem carry_setIsolated (t : Table) (iso : List Bool) (hnd : (t.map (·.cid)).Nodup) :
+    carryIsolated (some (setIsolated t iso)) t = setIsolated t iso := by
+  apply carry_eq
+  · exact setIsolated_length t iso
+  · intro i h1 h2
+    rw [setIsolated_getElem t iso i h1 h2]
+  · rw [setIsolated_map_cid]; exact hnd
+  · intro i h1 h2
+    rw [setIsolated_getElem t iso i h1 h2]
+
+theorem setIsolated_idem (t : Table) (iso : List Bool) :
+    setIsolated (setIsolated t iso) iso = setIsolated t iso := by
+  simp only [setIsolated_eq]
+  apply List.ext_getElem?
+  intro i
+  simp only [List.getElem?_mapIdx, Option.map_map]
+  cases t[i]? <;> rfl
+
+theorem setNcomp_idem (t : Table) (nc : List Int) :
+    setNcomp (setNcomp t nc) nc = setNcomp t nc := by
+  simp only [setNcomp_eq]
+  apply List.ext_getElem?
+  intro i
+  simp only [List.getElem?_mapIdx, Option.map_map]
+  cases t[i]? <;> rfl
+
+
+theorem closeInds_setIsolated (pad : Rat) (t : Table) (iso : List Bool) (i : Nat) :
+    closeInds pad (setIsolated t iso) i = closeInds pad t i := by
+  rw [setIsolated_eq]
+  unfold closeInds
+  simp only [List.getElem?_mapIdx, List.length_mapIdx]
+  cases t[i]? with
+  | none => rfl
+  | some ri =>
+    simp only [Option.map_some]
+    apply List.filter_congr
+    intro j _
+    cases t[j]? <;> rfl
+
+theorem bundlesOf_setIsolated (pad : Rat) (t : Table) (iso : List Bool) :
+    bundlesOf pad (setIsolated t iso) = bundlesOf pad t := by
+  unfold bundlesOf
+  simp only [closeInds_setIsolated, setIsolated_length]
+
+theorem setIsolated_cid (t : Table) (iso : List Bool) (i : Nat) :
+    ((setIsolated t iso)[i]?).map (·.cid) = (t[i]?).map (·.cid) := by
+  rw [setIsolated_eq, List.getElem?_mapIdx, Option.map_map]
+  cases t[i]? <;> rfl
+
+theorem setIsolated_fluff (t : Table) (iso : List Bool) (i : Nat) :
+    ((setIsolated t iso)[i]?).map (·.fluff) = (t[i]?).map (·.fluff) := by
+  rw [setIsolated_eq, List.getElem?_mapIdx, Option.map_map]
+  cases t[i]? <;> rfl
+
+omit [DecidableEq α] in
+theorem groupBundle_setIsolated (K : Kern) (P : PPrms α) (data : List (Hit α)) (sids : List Int) (t : Table)
+    (iso : List Bool) (b : List Nat) (g : List (Option Int)) :
+    groupBundle K P data sids (setIsolated t iso) b g = groupBundle K P data sids t b g := by
+  unfold groupBundle
+  simp only [setIsolated_cid, setIsolated_fluff]
+
+theorem groupIds_setIsolated (K : Kern) (P : PPrms α) (data : List (Hit α)) (sids : List Int) (t : Table)
+    (iso : List Bool) :
+    groupIds K P data sids (setIsolated t iso) = groupIds K P data sids t := by
+  unfold groupIds
+  simp only [bundlesOf_setIsolated, groupBundle_setIsolated]
+
+omit [DecidableEq α] in
+theorem layerStep_setNcomp (K : Kern) (P : PPrms α) (data : List (Hit α)) (gids : List Int) (t : Table)
+    (nc : List Int) (st : List (Option Int) × List Int) (ind : Nat) :
+    Lay.layerStep K P data gids (setNcomp t nc) st ind = Lay.layerStep K P data gids t st ind := by
+  unfold Lay.layerStep
+  rw [setNcomp_eq, List.getElem?_mapIdx]
+  cases t[ind]? <;> rfl
+
+theorem layerIds_setNcomp (K : Kern) (P : PPrms α) (data : List (Hit α)) (gids : List Int) (t : Table)
+    (nc : List Int) :
+    layerIds K P data gids (setNcomp t nc) = layerIds K P data gids t := by
+  rw [Lay.layerIds_eq, Lay.layerIds_eq, setNcomp_length]
+  have : Lay.layerStep K P data gids (setNcomp t nc) = Lay.layerStep K P data gids t := by
+    funext st ind
+    exact layerStep_setNcomp K P data gids t nc st ind
+  rw [this]
+
+
+end helpers
+
+/-- Everything the canonical run computes. -/
+structure Pt (α : Type) where
+  data : List (Hit α)
+  flag : Bool
+  sids : List Int
+  sl : Table
+  gids : List Int
+  iso : List Bool
+  gr : Table
+  lids : List Int
+  nc : List Int
+  lay : Table
+
+def T0 {α} (p : Pt α) : Chunk α := ⟨p.data, p.flag, none, none, none, none, none, none⟩
+def T1 {α} (p : Pt α) : Chunk α := ⟨p.data, p.flag, some p.sids, none, none, some p.sl, none, none⟩
+def T2 {α} (p : Pt α) : Chunk α :=
+  ⟨p.data, p.flag, some p.sids, some p.gids, none, some (setIsolated p.sl p.iso), some p.gr, none⟩
+def T3 {α} (p : Pt α) : Chunk α :=
+  ⟨p.data, p.flag, some p.sids, some p.gids, some p.lids, some (setIsolated p.sl p.iso),
+    some (setNcomp p.gr p.nc), some p.lay⟩
+
+structure Parts {α} [DecidableEq α] (K : Kern) (P : PPrms α) (p : Pt α) : Prop where
+  hs : sliceIds K P p.data = .ok p.sids
+  hsl : ∀ b, metarize K.toMetK P.toPrms .slices b p.data p.sids = .ok p.sl
+  hg : groupIds K P p.data p.sids p.sl = .ok (p.gids, p.iso)
+  hgr : metarize K.toMetK P.toPrms .groups false p.data p.gids = .ok p.gr
+  hl : layerIds K P p.data p.gids p.gr = .ok (p.lids, p.nc)
+  hlay : ∀ b, metarize K.toMetK P.toPrms .layers b p.data p.lids = .ok p.lay
+
+theorem parts_of_canon {α} [DecidableEq α] (K : Kern) (P : PPrms α) (c0 S1 S2 S3 : Chunk α)
+    (hC : Canon K P c0 S1 S2 S3) :
+    ∃ p : Pt α, Parts K P p ∧ c0 = T0 p ∧ S1 = T1 p ∧ S2 = T2 p ∧ S3 = T3 p := by
+  obtain ⟨hf, h1, h2, h3⟩ := hC
+  obtain ⟨data, flag, s, g, l, osl, ogr, olay⟩ := c0
+  simp only at hf
+  obtain ⟨rfl, rfl, rfl, rfl, rfl, rfl⟩ := hf
+  unfold findSlices at h1
+  simp only [bind, Except.bind, pure, Except.pure] at h1
+  split at h1
+  · cases h1
+  · rename_i sids hs
+    split at h1
+    · cases h1
+    · rename_i sl hsl
+      cases h1
+      unfold findGroups at h2
+      simp only [bind, Except.bind, pure, Except.pure, carryIsolated, Option.isSome_none, Bool.false_eq_true,
+        if_false] at h2
+      split at h2
+      · cases h2
+      · rename_i gi hg
+        obtain ⟨gids, iso⟩ := gi
+        split at h2
+        · cases h2
+        · rename_i gr hgr
+          cases h2
+          unfold findLayers at h3
+          simp only [bind, Except.bind, pure, Except.pure] at h3
+          split at h3
+          · cases h3
+          · rename_i li hl
+            obtain ⟨lids, nc⟩ := li
+            split at h3
+            · cases h3
+            · rename_i lay hlay
+              cases h3
+              refine ⟨⟨data, flag, sids, sl, gids, iso, gr, lids, nc, lay⟩, ⟨hs, ?_, hg, hgr, hl, ?_⟩, rfl, rfl, rfl, rfl⟩
+              · intro b
+                rw [metarize_slices_flag K.toMetK P.toPrms b _]
+                exact hsl
+              · intro b
+                rw [metarize_layers_flag K.toMetK P.toPrms b _]
+                exact hlay
+
+
+structure Full {α} [DecidableEq α] (K : Kern) (P : PPrms α) (p : Pt α) : Prop extends Parts K P p where
+  hc1 : carryIsolated (some p.sl) p.sl = p.sl
+  hc2 : carryIsolated (some (setIsolated p.sl p.iso)) p.sl = setIsolated p.sl p.iso
+  hi2 : setIsolated (setIsolated p.sl p.iso) p.iso = setIsolated p.sl p.iso
+  hn2 : setNcomp (setNcomp p.gr p.nc) p.nc = setNcomp p.gr p.nc
+  hg2 : groupIds K P p.data p.sids (setIsolated p.sl p.iso) = .ok (p.gids, p.iso)
+  hl2 : layerIds K P p.data p.gids (setNcomp p.gr p.nc) = .ok (p.lids, p.nc)
+  hgT : (∃ why, metarize K.toMetK P.toPrms .groups true p.data p.gids = .error (.ampy why)) ∨
+    (metarize K.toMetK P.toPrms .groups true p.data p.gids = .ok p.gr ∧ setNcomp p.gr p.nc = p.gr)
+
+section steps
+set_option linter.unusedSimpArgs false
+set_option linter.unusedVariables false
+variable {α : Type} [DecidableEq α] {K : Kern} {P : PPrms α} {p : Pt α}
+
+theorem s0_fs (h : Full K P p) : step K P (T0 p) .findSlices = (T1 p, .done) := by
+  simp [step, findSlices, T0, T1, h.hs, h.hsl, carryIsolated, bind, Except.bind, pure, Except.pure]
+theorem s1_fs (h : Full K P p) : step K P (T1 p) .findSlices = (T1 p, .done) := by
+  simp [step, findSlices, T1, h.hs, h.hsl, h.hc1, bind, Except.bind, pure, Except.pure]
+theorem s2_fs (h : Full K P p) : step K P (T2 p) .findSlices = (T2 p, .done) := by
+  simp [step, findSlices, T2, h.hs, h.hsl, h.hc2, bind, Except.bind, pure, Except.pure]
+theorem s3_fs (h : Full K P p) : step K P (T3 p) .findSlices = (T3 p, .done) := by
+  simp [step, findSlices, T3, h.hs, h.hsl, h.hc2, bind, Except.bind, pure, Except.pure]
+
+theorem s0_fg (h : Full K P p) : step K P (T0 p) .findGroups = (T0 p, .ampyError) := by
+  simp [step, findGroups, T0, outOfErr, bind, Except.bind, pure, Except.pure, throw, throwThe, MonadExceptOf.throw]
+theorem s1_fg (h : Full K P p) : step K P (T1 p) .findGroups = (T2 p, .done) := by
+  simp [step, findGroups, T1, T2, h.hg, h.hgr, bind, Except.bind, pure, Except.pure, throw, throwThe, MonadExceptOf.throw]
+theorem s2_fg (h : Full K P p) : step K P (T2 p) .findGroups = (T2 p, .done) := by
+  simp [step, findGroups, T2, h.hg2, h.hgr, h.hi2, bind, Except.bind, pure, Except.pure, throw, throwThe, MonadExceptOf.throw]
+theorem s3_fg (h : Full K P p) : step K P (T3 p) .findGroups = (T3 p, .ampyError) := by
+  simp [step, findGroups, T3, outOfErr, bind, Except.bind, pure, Except.pure, throw, throwThe, MonadExceptOf.throw]
+
+theorem s0_fl (h : Full K P p) : step K P (T0 p) .findLayers = (T0 p, .ampyError) := by
+  simp [step, findLayers, T0, outOfErr, bind, Except.bind, pure, Except.pure, throw, throwThe, MonadExceptOf.throw]
+theorem s1_fl (h : Full K P p) : step K P (T1 p) .findLayers = (T1 p, .ampyError) := by
+  simp [step, findLayers, T1, outOfErr, bind, Except.bind, pure, Except.pure, throw, throwThe, MonadExceptOf.throw]
+theorem s2_fl (h : Full K P p) : step K P (T2 p) .findLayers = (T3 p, .done) := by
+  simp [step, findLayers, T2, T3, h.hl, h.hlay, bind, Except.bind, pure, Except.pure]
+theorem s3_fl (h : Full K P p) : step K P (T3 p) .findLayers = (T3 p, .done) := by
+  simp [step, findLayers, T3, h.hl2, h.hlay, h.hn2, bind, Except.bind, pure, Except.pure]
+
+
+theorem s0_mz (h : Full K P p) (w : Which) : step K P (T0 p) (.metarize w) = (T0 p, .ampyError) := by
+  cases w <;> simp [step, metarizeOp, idsOf, T0, outOfErr]
+theorem s1_ms (h : Full K P p) : step K P (T1 p) (.metarize .slices) = (T1 p, .done) := by
+  simp [step, metarizeOp, idsOf, T1, h.hsl, h.hc1]
+theorem s1_mg (h : Full K P p) : step K P (T1 p) (.metarize .groups) = (T1 p, .ampyError) := by
+  simp [step, metarizeOp, idsOf, T1, outOfErr]
+theorem s1_ml (h : Full K P p) : step K P (T1 p) (.metarize .layers) = (T1 p, .ampyError) := by
+  simp [step, metarizeOp, idsOf, T1, outOfErr]
+theorem s2_ms (h : Full K P p) : step K P (T2 p) (.metarize .slices) = (T2 p, .done) := by
+  simp [step, metarizeOp, idsOf, T2, h.hsl, h.hc2]
+theorem s2_mg (h : Full K P p) : step K P (T2 p) (.metarize .groups) = (T2 p, .done) := by
+  simp [step, metarizeOp, idsOf, T2, h.hgr]
+theorem s2_ml (h : Full K P p) : step K P (T2 p) (.metarize .layers) = (T2 p, .ampyError) := by
+  simp [step, metarizeOp, idsOf, T2, outOfErr]
+theorem s3_ms (h : Full K P p) : step K P (T3 p) (.metarize .slices) = (T3 p, .done) := by
+  simp [step, metarizeOp, idsOf, T3, h.hsl, h.hc2]
+theorem s3_mg (h : Full K P p) : step K P (T3 p) (.metarize .groups) = (T3 p, .ampyError) ∨
+    step K P (T3 p) (.metarize .groups) = (T3 p, .done) := by
+  rcases h.hgT with ⟨why, e⟩ | ⟨e, e2⟩
+  · left; simp [step, metarizeOp, idsOf, T3, e, outOfErr]
+  · right; simp [step, metarizeOp, idsOf, T3, e, e2]
+theorem s3_ml (h : Full K P p) : step K P (T3 p) (.metarize .layers) = (T3 p, .done) := by
+  simp [step, metarizeOp, idsOf, T3, h.hlay]
+
+theorem s0_mm (h : Full K P p) (w : Which) : step K P (T0 p) (.metarMsg w) = (T0 p, .ampyError) := by
+  cases w <;> simp [step, metarMsgOp, idsOf, tableOf, T0, outOfErr]
+theorem s1_mms (h : Full K P p) : ∃ s, step K P (T1 p) (.metarMsg .slices) = (T1 p, .msg s) := by
+  simp [step, metarMsgOp, idsOf, tableOf, T1]
+theorem s1_mmg (h : Full K P p) : step K P (T1 p) (.metarMsg .groups) = (T1 p, .ampyError) := by
+  simp [step, metarMsgOp, idsOf, tableOf, T1, outOfErr]
+theorem s1_mml (h : Full K P p) : step K P (T1 p) (.metarMsg .layers) = (T1 p, .ampyError) := by
+  simp [step, metarMsgOp, idsOf, tableOf, T1, outOfErr]
+theorem s2_mms (h : Full K P p) : ∃ s, step K P (T2 p) (.metarMsg .slices) = (T2 p, .msg s) := by
+  simp [step, metarMsgOp, idsOf, tableOf, T2]
+theorem s2_mmg (h : Full K P p) : ∃ s, step K P (T2 p) (.metarMsg .groups) = (T2 p, .msg s) := by
+  simp [step, metarMsgOp, idsOf, tableOf, T2]
+theorem s2_mml (h : Full K P p) : step K P (T2 p) (.metarMsg .layers) = (T2 p, .ampyError) := by
+  simp [step, metarMsgOp, idsOf, tableOf, T2, outOfErr]
+theorem s3_mm (h : Full K P p) (w : Which) : ∃ s, step K P (T3 p) (.metarMsg w) = (T3 p, .msg s) := by
+  cases w <;> simp [step, metarMsgOp, idsOf, tableOf, T3]
+
+theorem full_of_parts (hK : KernOK K P.basePerc) (h : Parts K P p) : Full K P p := by
+  have hnd : (p.sl.map (·.cid)).Nodup :=
+    (metarize_cids K.toMetK P.toPrms .slices false p.data p.sids hK.met p.sl (h.hsl false)).nodup_iff.mpr
+      (clusterIds_nodup p.sids)
+  refine { h with
+    hc1 := carry_self p.sl hnd
+    hc2 := carry_setIsolated p.sl p.iso hnd
+    hi2 := setIsolated_idem p.sl p.iso
+    hn2 := setNcomp_idem p.gr p.nc
+    hg2 := by rw [groupIds_setIsolated]; exact h.hg
+    hl2 := by rw [layerIds_setNcomp]; exact h.hl
+    hgT := ?_ }
+  by_cases hc : clusterIds p.gids = []
+  · right
+    have hperm := metarize_cids K.toMetK P.toPrms .groups false p.data p.gids hK.met p.gr h.hgr
+    rw [hc] at hperm
+    have hnil : p.gr = [] := List.map_eq_nil_iff.mp hperm.eq_nil
+    refine ⟨?_, ?_⟩
+    · rw [metarize_groups_nil K.toMetK P.toPrms true false p.data p.gids hc]
+      exact h.hgr
+    · rw [hnil]; rfl
+  · left
+    exact metarize_refuses K.toMetK P.toPrms true p.data p.gids ⟨rfl, hc⟩
+
+/-- What `step_canon` and `step_idem` need from one call. -/
+def Good (K : Kern) (P : PPrms α) (p : Pt α) (c : Chunk α) (op : Op) : Prop :=
+  ((step K P c op).1 = c ∨ (c = T0 p ∧ (step K P c op).1 = T1 p) ∨ (c = T1 p ∧ (step K P c op).1 = T2 p) ∨
+    (c = T2 p ∧ (step K P c op).1 = T3 p)) ∧
+  ((step K P c op).2 = .ampyError → (step K P c op).1 = c ∧ RefusalReason c op) ∧
+  (∀ cls, (step K P c op).2 ≠ .crash cls) ∧
+  ((step K P c op).2 = .done → step K P (step K P c op).1 op = ((step K P c op).1, .done))
+
+theorem good_stay {c : Chunk α} {op : Op} (e : step K P c op = (c, .done)) : Good K P p c op := by
+  unfold Good
+  rw [e]
+  exact ⟨.inl rfl, fun h => (by cases h), fun _ h => (by cases h), fun _ => e⟩
+
+theorem good_adv {c c' : Chunk α} {op : Op} (e : step K P c op = (c', .done)) (e' : step K P c' op = (c', .done))
+    (adv : (c = T0 p ∧ c' = T1 p) ∨ (c = T1 p ∧ c' = T2 p) ∨ (c = T2 p ∧ c' = T3 p)) : Good K P p c op := by
+  unfold Good
+  rw [e]
+  exact ⟨.inr adv, fun h => (by cases h), fun _ h => (by cases h), fun _ => e'⟩
+
+theorem good_refuse {c : Chunk α} {op : Op} (e : step K P c op = (c, .ampyError)) (r : RefusalReason c op) :
+    Good K P p c op := by
+  unfold Good
+  rw [e]
+  exact ⟨.inl rfl, fun _ => ⟨rfl, r⟩, fun _ h => (by cases h), fun h => by cases h⟩
+
+theorem good_msg {c : Chunk α} {op : Op} (e : ∃ s, step K P c op = (c, .msg s)) : Good K P p c op := by
+  obtain ⟨s, e⟩ := e
+  unfold Good
+  rw [e]
+  exact ⟨.inl rfl, fun h => (by cases h), fun _ h => (by cases h), fun h => by cases h⟩
+
+theorem good_all (h : Full K P p) (c : Chunk α) (hc : c = T0 p ∨ c = T1 p ∨ c = T2 p ∨ c = T3 p) (op : Op) :
+    Good K P p c op := by
+  rcases hc with rfl | rfl | rfl | rfl
+  · rcases op with _ | _ | _ | w | w
+    · exact good_adv (s0_fs h) (s1_fs h) (.inl ⟨rfl, rfl⟩)
+    · exact good_refuse (s0_fg h) (.inl rfl)
+    · exact good_refuse (s0_fl h) rfl
+    · exact good_refuse (s0_mz h w) (.inl (by cases w <;> rfl))
+    · exact good_refuse (s0_mm h w) (by cases w <;> rfl)
+  · rcases op with _ | _ | _ | w | w
+    · exact good_stay (s1_fs h)
+    · exact good_adv (s1_fg h) (s2_fg h) (.inr (.inl ⟨rfl, rfl⟩))
+    · exact good_refuse (s1_fl h) rfl
+    · cases w
+      · exact good_stay (s1_ms h)
+      · exact good_refuse (s1_mg h) (.inl rfl)
+      · exact good_refuse (s1_ml h) (.inl rfl)
+    · cases w
+      · exact good_msg (s1_mms h)
+      · exact good_refuse (s1_mmg h) rfl
+      · exact good_refuse (s1_mml h) rfl
+  · rcases op with _ | _ | _ | w | w
+    · exact good_stay (s2_fs h)
+    · exact good_stay (s2_fg h)
+    · exact good_adv (s2_fl h) (s3_fl h) (.inr (.inr ⟨rfl, rfl⟩))
+    · cases w
+      · exact good_stay (s2_ms h)
+      · exact good_stay (s2_mg h)
+      · exact good_refuse (s2_ml h) (.inl rfl)
+    · cases w
+      · exact good_msg (s2_mms h)
+      · exact good_msg (s2_mmg h)
+      · exact good_refuse (s2_mml h) rfl
+  · rcases op with _ | _ | _ | w | w
+    · exact good_stay (s3_fs h)
+    · exact good_refuse (s3_fg h) (.inr rfl)
+    · exact good_stay (s3_fl h)
+    · cases w
+      · exact good_stay (s3_ms h)
+      · rcases s3_mg h with e | e
+        · exact good_refuse e (.inr ⟨rfl, rfl⟩)
+        · exact good_stay e
+      · exact good_stay (s3_ml h)
+    · exact good_msg (s3_mm h w)
+
+/-- Tables are only gained along `T0 → T1 → T2 → T3`. -/
+theorem good_tables {c : Chunk α} {op : Op} (g : Good K P p c op) :
+    (c.slices.isSome = true → (step K P c op).1.slices.isSome = true) ∧
+    (c.groups.isSome = true → (step K P c op).1.groups.isSome = true) ∧
+    (c.layers.isSome = true → (step K P c op).1.layers.isSome = true) := by
+  rcases g.1 with e | ⟨rfl, e⟩ | ⟨rfl, e⟩ | ⟨rfl, e⟩ <;> rw [e]
+  · exact ⟨id, id, id⟩
+  · simp [T0, T1]
+  · simp [T1, T2]
+  · simp [T2, T3]
+
+theorem good_canon {c : Chunk α} {op : Op} (g : Good K P p c op)
+    (hc : IsCanon (T0 p) (T1 p) (T2 p) (T3 p) c) : IsCanon (T0 p) (T1 p) (T2 p) (T3 p) (step K P c op).1 := by
+  rcases g.1 with e | ⟨_, e⟩ | ⟨_, e⟩ | ⟨_, e⟩ <;> rw [e]
+  · exact hc
+  · exact .inr (.inl rfl)
+  · exact .inr (.inr (.inl rfl))
+  · exact .inr (.inr (.inr rfl))
+
+end steps
+
+end SC
+
 /-- A successful `run` provides the canonical states. -/
 theorem canon_of_run {α} [DecidableEq α] (K : Kern) (P : PPrms α) (checked : List (Hit α)) (c : Chunk α)
     (h : run K P checked = .ok c) :
     ∃ S1 S2, Canon K P (construct P checked) S1 S2 c := by
-  sorry
+  unfold run at h
+  simp only [bind, Except.bind] at h
+  split at h
+  · cases h
+  · rename_i c1 h1
+    split at h
+    · cases h
+    · rename_i c2 h2
+      exact ⟨c1, c2, ⟨⟨rfl, rfl, rfl, rfl, rfl, rfl⟩, h1, h2, h⟩⟩
 
 /-- One call from a canonical state: the new state is canonical (the same one, or the next stage), a
 refusal has one of the documented reasons, nothing else than `AmpycloudError` is raised. -/
@@ -38,21 +480,38 @@ theorem step_canon {α} [DecidableEq α] (K : Kern) (P : PPrms α) (hK : KernOK 
     IsCanon c0 S1 S2 S3 (step K P c op).1 ∧
     ((step K P c op).2 = .ampyError → (step K P c op).1 = c ∧ RefusalReason c op) ∧
     (∀ cls, (step K P c op).2 ≠ .crash cls) := by
-  sorry
+  obtain ⟨p, hp, rfl, rfl, rfl, rfl⟩ := SC.parts_of_canon K P c0 S1 S2 S3 hC
+  have g := SC.good_all (SC.full_of_parts hK hp) c hc op
+  exact ⟨SC.good_canon g hc, g.2.1, g.2.2.1⟩
 
 /-- Repeating a permitted call is idempotent. -/
 theorem step_idem {α} [DecidableEq α] (K : Kern) (P : PPrms α) (hK : KernOK K P.basePerc)
     (c0 S1 S2 S3 : Chunk α) (hC : Canon K P c0 S1 S2 S3) (c : Chunk α) (hc : IsCanon c0 S1 S2 S3 c) (op : Op)
     (h : (step K P c op).2 = .done) :
     step K P (step K P c op).1 op = ((step K P c op).1, .done) := by
-  sorry
+  obtain ⟨p, hp, rfl, rfl, rfl, rfl⟩ := SC.parts_of_canon K P c0 S1 S2 S3 hC
+  exact (SC.good_all (SC.full_of_parts hK hp) c hc op).2.2.2 h
+
+theorem SC.runOps_cons {α} [DecidableEq α] (K : Kern) (P : PPrms α) (c : Chunk α) (op : Op) (rest : List Op) :
+    runOps K P c (op :: rest) =
+      ((runOps K P (step K P c op).1 rest).1, (step K P c op).2 :: (runOps K P (step K P c op).1 rest).2) := rfl
 
 /-- Any history of calls from the fresh chunk ends in a canonical state and raises nothing but
 `AmpycloudError`. -/
 theorem runOps_canon {α} [DecidableEq α] (K : Kern) (P : PPrms α) (hK : KernOK K P.basePerc)
     (c0 S1 S2 S3 : Chunk α) (hC : Canon K P c0 S1 S2 S3) (c : Chunk α) (hc : IsCanon c0 S1 S2 S3 c) (ops : List Op) :
     IsCanon c0 S1 S2 S3 (runOps K P c ops).1 ∧ ∀ o ∈ (runOps K P c ops).2, ∀ cls, o ≠ .crash cls := by
-  sorry
+  induction ops generalizing c with
+  | nil => exact ⟨hc, fun o ho => by cases ho⟩
+  | cons op rest ih =>
+    have hs := step_canon K P hK c0 S1 S2 S3 hC c hc op
+    have hr := ih (step K P c op).1 hs.1
+    rw [SC.runOps_cons]
+    refine ⟨hr.1, ?_⟩
+    intro o ho
+    rcases List.mem_cons.mp ho with rfl | ho
+    · exact hs.2.2
+    · exact hr.2 o ho
 
 /-- Stages only move forward: once a stage is completed its table stays that of the canonical run. -/
 theorem runOps_monotone {α} [DecidableEq α] (K : Kern) (P : PPrms α) (hK : KernOK K P.basePerc)
@@ -60,6 +519,17 @@ theorem runOps_monotone {α} [DecidableEq α] (K : Kern) (P : PPrms α) (hK : Ke
     (c.slices.isSome = true → (runOps K P c ops).1.slices.isSome = true) ∧
     (c.groups.isSome = true → (runOps K P c ops).1.groups.isSome = true) ∧
     (c.layers.isSome = true → (runOps K P c ops).1.layers.isSome = true) := by
-  sorry
+  induction ops generalizing c with
+  | nil => exact ⟨id, id, id⟩
+  | cons op rest ih =>
+    have hs := step_canon K P hK c0 S1 S2 S3 hC c hc op
+    have hr := ih (step K P c op).1 hs.1
+    have ht : (c.slices.isSome = true → (step K P c op).1.slices.isSome = true) ∧
+        (c.groups.isSome = true → (step K P c op).1.groups.isSome = true) ∧
+        (c.layers.isSome = true → (step K P c op).1.layers.isSome = true) := by
+      obtain ⟨p, hp, rfl, rfl, rfl, rfl⟩ := SC.parts_of_canon K P c0 S1 S2 S3 hC
+      exact SC.good_tables (SC.good_all (SC.full_of_parts hK hp) c hc op)
+    rw [SC.runOps_cons]
+    exact ⟨fun h => hr.1 (ht.1 h), fun h => hr.2.1 (ht.2.1 h), fun h => hr.2.2 (ht.2.2 h)⟩
 
 end Ampy
